@@ -343,10 +343,9 @@ func (p postNames20) sanitize() error {
 	// find the maximum
 	for _, u := range p.GlyphNameIndexes {
 		// https://developer.apple.com/fonts/TrueType-Reference-Manual/RM06/Chap6post.html
-		// says that "32768 through 65535 are reserved for future use".
-		if u > 32767 {
-			return errors.New("invalid index in Postscript names table format 20")
-		}
+		// says that "32768 through 65535 are reserved for future use", but
+		// the Opentype specification (and harfbuzz) accepts indices up to 65535,
+		// which are needed for fonts with more than 32767 glyph names.
 		if u > maxIndex {
 			maxIndex = u
 		}
